@@ -7,7 +7,7 @@
 (* and per amino-acid letter the eligible codon set (empty = unencodable).  *)
 EXTENDS CodonTables, Sequences, SequencesExt, Json, CSV, IOUtils
 CONSTANTS Ids07
-Pats == {"ones", "p1_9", "p1_10", "p11_89", "zero1", "p10_30_60", "deadF", "p9_1"}
+Pats == {"ones", "p1_9", "p1_10", "p11_89", "zero1", "p10_30_60", "deadF", "p9_1", "p21_179", "p101_899"}
 CodonSeq == [k \in 1..64 |-> B4[((k - 1) \div 16) + 1] \o B4[(((k - 1) \div 4) % 4) + 1] \o B4[((k - 1) % 4) + 1]]
 Idx == [c \in Codons |-> CHOOSE k \in 1..64 : CodonSeq[k] = c]
 Rank(id, c) == Cardinality({d \in CodonsOf(id, Code[id][c]) : Idx[d] < Idx[c]})
@@ -18,6 +18,8 @@ PatW(p, id, c) ==
       [] p = "p9_1"      -> IF r = 0 THEN 9 ELSE 1
       [] p = "p1_10"     -> IF r = 0 THEN 1 ELSE 10
       [] p = "p11_89"    -> IF r = 0 THEN 11 ELSE 89
+      [] p = "p21_179"   -> IF r = 0 THEN 21 ELSE 179          \* 10.5 % for two-codon amino acids
+      [] p = "p101_899"  -> IF r = 0 THEN 101 ELSE 899         \* 10.1 %
       [] p = "zero1"     -> IF r = 0 THEN 0 ELSE 5
       [] p = "p10_30_60" -> IF r = 0 THEN 10 ELSE IF r = 1 THEN 30 ELSE 60
       [] p = "deadF"     -> IF Code[id][c] \in {"F", "W"} THEN 0 ELSE 3
